@@ -51,6 +51,9 @@ pub struct Th {
 pub struct CellSt {
     pub w: VC,
     pub r: VC,
+    /// open read accesses per thread / the thread with an open write access
+    pub rd_held: [u8; MAXT],
+    pub wr_held: Option<u8>,
 }
 
 #[derive(Clone, PartialEq, Eq, Hash, Debug)]
@@ -85,6 +88,8 @@ pub struct St {
     pub lrel: Vec<VC>,
     pub lazy_inits: Vec<u8>,
     pub raced: bool,
+    /// an access started while a conflicting access was still open
+    pub overlapped: bool,
     pub user_panic: Option<u64>,
     /// the step that produced this state was a spurious return of `Notify::wait` (such steps do
     /// not count as progress: loom also explores the execution in which the wake-up never comes)
@@ -145,6 +150,7 @@ impl St {
             lrel: vec![[0; MAXT]; o.lazies.len()],
             lazy_inits: vec![0; o.lazies.len()],
             raced: false,
+            overlapped: false,
             user_panic: None,
             via_spurious: false,
         };
@@ -183,6 +189,10 @@ impl St {
     }
 
     fn cell_read(&mut self, t: usize, c: usize, m: Mode) {
+        if self.cells[c].wr_held.is_some() {
+            self.overlapped = true;
+            return;
+        }
         if !m.hb {
             return;
         }
@@ -194,6 +204,10 @@ impl St {
     }
 
     fn cell_write(&mut self, t: usize, c: usize, m: Mode) {
+        if self.cells[c].wr_held.is_some() || self.cells[c].rd_held.iter().any(|&n| n > 0) {
+            self.overlapped = true;
+            return;
+        }
         if !m.hb {
             return;
         }
@@ -374,6 +388,30 @@ impl St {
             }
             K::CellWrite { c } => {
                 s.cell_write(t, c, m);
+                fin!(s, Res::U)
+            }
+            K::CellBegin { c, w } => {
+                if w {
+                    s.cell_write(t, c, m);
+                    if !s.overlapped {
+                        s.cells[c].wr_held = Some(t as u8);
+                    }
+                } else {
+                    s.cell_read(t, c, m);
+                    if !s.overlapped {
+                        s.cells[c].rd_held[t] += 1;
+                    }
+                }
+                fin!(s, Res::U)
+            }
+            K::CellEnd { c, w } => {
+                if w {
+                    assert_eq!(s.cells[c].wr_held, Some(t as u8), "ill-formed program: end of a write access that is not open");
+                    s.cells[c].wr_held = None;
+                } else {
+                    assert!(s.cells[c].rd_held[t] > 0, "ill-formed program: end of a read access that is not open");
+                    s.cells[c].rd_held[t] -= 1;
+                }
                 fin!(s, Res::U)
             }
             K::Lock { m: mx } => {
@@ -783,6 +821,7 @@ pub struct ScResult {
     /// partial outcomes at deadlock states
     pub deadlocks: BTreeSet<Outcome>,
     pub race: bool,
+    pub overlap: bool,
     /// leak kinds over all finished executions
     pub leaks: BTreeSet<String>,
     /// outcomes of finished executions without a leak
@@ -804,6 +843,9 @@ impl ScResult {
         if self.race {
             k.insert("Race".to_string());
         }
+        if self.overlap {
+            k.insert("Overlap".to_string());
+        }
         for l in &self.leaks {
             k.insert(format!("Leak({})", l));
         }
@@ -811,6 +853,31 @@ impl ScResult {
             k.insert(format!("User({})", u));
         }
         k
+    }
+}
+
+impl St {
+    /// Cell accesses are not scheduling points: they run together with the step before them
+    /// (whether an access *overlaps* an open one depends on the schedule, and loom only switches
+    /// threads at scheduling points). Applied by the explorer after every step of thread `t`.
+    fn absorb_cell_ops(mut self, p: &Program, t: usize, m: Mode) -> St {
+        loop {
+            if self.raced || self.overlapped || self.user_panic.is_some() || self.via_spurious {
+                return self;
+            }
+            let th = &self.th[t];
+            if th.status != Status::Ready || th.pc >= p.threads[t].len() {
+                return self;
+            }
+            if !matches!(p.threads[t][th.pc].k, K::CellBegin { .. } | K::CellEnd { .. } | K::CellRead { .. } | K::CellWrite { .. }) {
+                return self;
+            }
+            let mut nx = self.succ(p, t, m);
+            if nx.len() != 1 {
+                return self;
+            }
+            self = nx.pop().unwrap().0;
+        }
     }
 }
 
@@ -828,6 +895,11 @@ pub fn explore(p: &Program, m: Mode, max_states: u64) -> ScResult {
             res.truncated = true;
             break;
         }
+        if s.overlapped {
+            res.overlap = true;
+            res.witness.entry("overlap".into()).or_insert(path);
+            continue;
+        }
         if s.raced {
             res.race = true;
             res.witness.entry("race".into()).or_insert(path);
@@ -841,6 +913,7 @@ pub fn explore(p: &Program, m: Mode, max_states: u64) -> ScResult {
         let mut any_spurious = false;
         for t in 0..s.th.len() {
             for (n, _r) in s.succ(p, t, m) {
+                let n = if p.objs.cells > 0 { n.absorb_cell_ops(p, t, m) } else { n };
                 if n.via_spurious {
                     any_spurious = true;
                 } else {
